@@ -260,6 +260,7 @@ func runVp9UnmarshalSeq(payloads [][]byte) Outcome {
 	var o Outcome
 	d := &codecs.VP9Packet{}
 	res := VList{}
+	afterReject := false
 	for i, in := range payloads {
 		g, buf := newGuarded(in)
 		var err error
@@ -276,11 +277,14 @@ func runVp9UnmarshalSeq(payloads [][]byte) Outcome {
 		if err != nil {
 			res = append(res, T(1, L(I(1), Bool(head))))
 			o.Tags = append(o.Tags, "vp9 rejected")
-			d = &codecs.VP9Packet{}
-			continue
+			afterReject = true
+			continue // the receiver is kept: a rejected payload must not show in the next result
 		}
 		o.Nontrivial = true
 		o.Tags = append(o.Tags, "vp9 accepted")
+		if afterReject {
+			o.Tags = append(o.Tags, "accepted into a receiver that had rejected an input")
+		}
 		res = append(res, OkV(L(vVp9Pkt(d), Bool(head))))
 		if ref := vp9RefDescriptor(in); ref.ok && o.Fail == "" {
 			same := d.I == ref.i && d.P == ref.p && d.L == ref.l && d.F == ref.f && d.B == ref.b && d.E == ref.e && d.V == ref.v && d.Z == ref.z &&
